@@ -737,6 +737,13 @@ def _run(case, drv):
             ts = [F(x[0]) for x in a["hits"]] + [F(x[0]) for x in a["holds"]] + [F(x[0]) for x in a["bpms"]] + [F(x) for x in info.get("sv_times", [])]
             if f["first_tempo"] is not None and ts and min(ts) != F(f["first_tempo"]):
                 kf_pred.append("N09a")
+    res = "ms" if tgt in ("osu", "qua") else ([[1, 96], [1, 192]] if tgt == "sm" else [[1, 192], [1, 192]])
+    for a in srcs:
+        cr = drv.call("c09.crowded", res=res, a=dict(hits=a["hits"], holds=a["holds"], bpms=a["bpms"]))["ok"]
+        if cr["crowded"]:
+            hyp.append("two cells of one column closer than the target's resolution")
+        if cr["tempo_crowded"]:
+            hyp.append("two tempo points closer than the target's resolution")
     if src == "bms":
         if not info.get("header_texts_present"):
             kf_pred.append("N09b")
@@ -761,7 +768,6 @@ def _run(case, drv):
         hyp.append("tempo change off the measure lines (re-seated by the reader: tempo values not comparable)")
     dom = not kf_pred and not hyp
 
-    res = "ms" if tgt in ("osu", "qua") else ([[1, 96], [1, 192]] if tgt == "sm" else [[1, 192], [1, 192]])
     why = []
     detail = {}
     ok = True
@@ -822,10 +828,6 @@ def _run(case, drv):
                 if objects_only:
                     v["close"] = v["hits"] and v["holds"]
                     tags.append("objects-only")
-                if v.get("crowded"):
-                    hyp.append("two cells of one column closer than the target's resolution")
-                if v.get("tempo_crowded"):
-                    hyp.append("two tempo points closer than the target's resolution")
                 if not v["close"]:
                     ok = False
                     why.append(f"chart {i}: timeline differs (hits {v['hits']}, holds {v['holds']}, tempo {v['bpms']}; "
